@@ -66,8 +66,13 @@ def r1(run):
     # remove: the index keys are built from the frame fetched by the same id that keys the primary tombstone
     rb = rem[0]
     gets = q.live_calls(rb, C.GET)
-    run.ob("remove|frame-from-get(id)", len(gets) == 1 and mentions_arg(gets[0].arg(1), 2), rb.sp,
-           "remove derives the index keys from get(id) of its own id parameter")
+    ok = len(gets) == 1 and mentions_arg(gets[0].arg(1), 2)
+    if not gets and rb.def_ != C.REMOVE:
+        # the shared removal function takes the FRAME: its primary tombstone and its index tombstones are keyed from that one parameter
+        ops = [c for c in rb.calls() if c.bb in rb.live_blocks() and c.fn == C.BATCH_REMOVE]
+        ok = len(ops) == 3 and all(mentions_arg(c.arg(2), 2) for c in ops)
+    run.ob("remove|frame-from-get(id)", ok, rb.sp,
+           "remove derives the index keys from get(id) of its own id parameter (or, in a shared removal function, all three keys from its frame parameter)")
 
 
 def prefix_constructor(run):
